@@ -975,8 +975,30 @@ package machine
 //@   && (forall i int :: 0 <= i && i < len(m.queue) && m.queue[i].QueueTick > 0 ==> m.queueTick < m.queue[i].QueueTick && m.queue[i].QueueTick <= m.queueTick + m.queueTicksPending)
 //@   && (forall i, j int :: 0 <= i && i < j && j < len(m.queue) && m.queue[i].QueueTick > 0 && m.queue[j].QueueTick > 0 ==> m.queue[i].QueueTick < m.queue[j].QueueTick)
 
+// SameRequest: a pending mutation which makes a new arg-less request for
+// [states] redundant: same kind, no arguments, exactly the same called states.
+//@ pred SameRequest(m *Machine, q *Mutation, mutType MutationType, states S, isCheck bool) := q.IsCheck == isCheck && q.Type == mutType && maplen(q.Args) == 0
+//@      && len(q.Called) == len(states) && (forall i int :: 0 <= i && i < len(states) ==> mem(q.Called, index(m.stateNames, states[i])))
+
+//@ func (m *Machine) IsQueued(mutType MutationType, states S, withoutArgsOnly bool, statesStrictEqual bool, minQueueTick uint64, isCheck bool, position Position) (found bool, idx uint16, qTick uint64)
+//@   props C04
+//@   requires locks: unlocked(m.queueMx)
+//@   requires nn:    forall i int :: 0 <= i && i < len(m.queue) ==> m.queue[i] != nil
+//@   requires short: len(m.queue) <= 65535
+//@   ensures  strict_hit: found && position == PositionAny && withoutArgsOnly && statesStrictEqual ==> idx < len(m.queue) && SameRequest(m, m.queue[idx], mutType, states, isCheck) && qTick == m.queue[idx].QueueTick
+//@   ensures  miss:  !found && !m.disposing && position == PositionAny && minQueueTick == 0 ==> (forall i int :: 0 <= i && i < len(m.queue) ==> !SameRequest(m, m.queue[i], mutType, states, isCheck))
+//@   ensures  locks: unlocked(m.queueMx)
+//@   loop 1 invariant none: position == PositionAny && minQueueTick == 0 ==> (forall j int :: 0 <= j && j < idx1 ==> !SameRequest(m, m.queue[j], mutType, states, isCheck))
+
+// A request is reported as a duplicate only when the same request is pending.
 //@ func (m *Machine) detectQueueDuplicates(mutationType MutationType, states S, isCheck bool) (r bool)
-//@   trusted scans the queue for an equal pending mutation (specified only by its frame: reads)
+//@   props C04
+//@   requires locks: unlocked(m.queueMx)
+//@   requires nn:    forall i int :: 0 <= i && i < len(m.queue) ==> m.queue[i] != nil
+//@   requires short: len(m.queue) <= 65535
+//@   ensures  dup:   r ==> (exists i int :: 0 <= i && i < len(m.queue) && SameRequest(m, m.queue[i], mutationType, states, isCheck))
+//@   ensures  nodup: !r && !m.disposing ==> (forall i int :: 0 <= i && i < len(m.queue) ==> !SameRequest(m, m.queue[i], mutationType, states, isCheck))
+//@   ensures  locks: unlocked(m.queueMx)
 //@ func (e *Event) Transition() (r *Transition)
 //@   trusted getter of the source machine's current transition
 
